@@ -266,6 +266,17 @@ func runCheck(id, tier string) int {
 	}
 	for _, c := range cons {
 		r := p.verifyFunc(c)
+		if f := os.Getenv("GVC_ALLOBLS"); f != "" {
+			// audit aid: every obligation generated for the contract, before the property's filter
+			if fh, err := os.OpenFile(f, os.O_APPEND|os.O_CREATE|os.O_WRONLY, 0o644); err == nil {
+				for _, o := range r.vc.obls {
+					if !(o.MustFail || o.Cover) {
+						fmt.Fprintf(fh, "%s\n", o.Name)
+					}
+				}
+				fh.Close()
+			}
+		}
 		if ps.Filter != nil {
 			var keep []*Obligation
 			for _, o := range r.vc.obls {
@@ -522,6 +533,13 @@ func (pc *propCheck) report(t0 time.Time) int {
 			continue
 		}
 		nClaimed++
+		if f := os.Getenv("GVC_OBLS"); f != "" {
+			// debugging aid: the names of all claimed obligations, one per line
+			if fh, err := os.OpenFile(f, os.O_APPEND|os.O_CREATE|os.O_WRONLY, 0o644); err == nil {
+				fmt.Fprintf(fh, "%s\t%s\n", pc.ID, o.Name)
+				fh.Close()
+			}
+		}
 		if ok {
 			nDischarged++
 			if o.Result.Solver == "gvc-trivial" {
